@@ -434,4 +434,106 @@ theorem meanRow_length (c n : Nat) (obs : Mat) (p : Nat) (h : ∀ r ∈ obs, r.l
   simp only [meanRow, List.length_map]
   exact colSum_length n _ (fun r hr => h r (mem_everyNth _ _ _ _ hr))
 
+/-! ### minimum / maximum (`Grid._boundaries`) -/
+
+theorem foldl_min_spec (xs : Vec) (a : Rat) :
+    (xs.foldl (fun a b => if b < a then b else a) a = a
+      ∨ xs.foldl (fun a b => if b < a then b else a) a ∈ xs)
+    ∧ xs.foldl (fun a b => if b < a then b else a) a ≤ a
+    ∧ ∀ x ∈ xs, xs.foldl (fun a b => if b < a then b else a) a ≤ x := by
+  induction xs generalizing a with
+  | nil => simp
+  | cons y ys ih =>
+    simp only [List.foldl_cons]
+    by_cases hy : y < a
+    · simp only [hy, if_true]
+      obtain ⟨h1, h2, h3⟩ := ih y
+      refine ⟨?_, by grind, ?_⟩
+      · rcases h1 with h1 | h1
+        · right; simp [h1]
+        · right; simp [h1]
+      · intro x hx
+        simp only [List.mem_cons] at hx
+        rcases hx with rfl | hx
+        · exact h2
+        · exact h3 x hx
+    · simp only [hy, if_false]
+      obtain ⟨h1, h2, h3⟩ := ih a
+      refine ⟨?_, h2, ?_⟩
+      · rcases h1 with h1 | h1
+        · left; exact h1
+        · right; simp [h1]
+      · intro x hx
+        simp only [List.mem_cons] at hx
+        rcases hx with rfl | hx
+        · grind
+        · exact h3 x hx
+
+theorem foldl_max_spec (xs : Vec) (a : Rat) :
+    (xs.foldl (fun a b => if a < b then b else a) a = a
+      ∨ xs.foldl (fun a b => if a < b then b else a) a ∈ xs)
+    ∧ a ≤ xs.foldl (fun a b => if a < b then b else a) a
+    ∧ ∀ x ∈ xs, x ≤ xs.foldl (fun a b => if a < b then b else a) a := by
+  induction xs generalizing a with
+  | nil => simp
+  | cons y ys ih =>
+    simp only [List.foldl_cons]
+    by_cases hy : a < y
+    · simp only [hy, if_true]
+      obtain ⟨h1, h2, h3⟩ := ih y
+      refine ⟨?_, by grind, ?_⟩
+      · rcases h1 with h1 | h1
+        · right; simp [h1]
+        · right; simp [h1]
+      · intro x hx
+        simp only [List.mem_cons] at hx
+        rcases hx with rfl | hx
+        · exact h2
+        · exact h3 x hx
+    · simp only [hy, if_false]
+      obtain ⟨h1, h2, h3⟩ := ih a
+      refine ⟨?_, h2, ?_⟩
+      · rcases h1 with h1 | h1
+        · left; exact h1
+        · right; simp [h1]
+      · intro x hx
+        simp only [List.mem_cons] at hx
+        rcases hx with rfl | hx
+        · grind
+        · exact h3 x hx
+
+/-- `vmin` returns the least element -/
+theorem vmin_spec (xs : Vec) (m : Rat) (h : vmin xs = some m) : m ∈ xs ∧ ∀ x ∈ xs, m ≤ x := by
+  cases xs with
+  | nil => simp [vmin] at h
+  | cons a t =>
+    simp only [vmin, Option.some.injEq] at h
+    subst h
+    obtain ⟨h1, h2, h3⟩ := foldl_min_spec t a
+    refine ⟨?_, ?_⟩
+    · rcases h1 with h1 | h1
+      · simp [h1]
+      · simp [h1]
+    · intro x hx
+      simp only [List.mem_cons] at hx
+      rcases hx with rfl | hx
+      · exact h2
+      · exact h3 x hx
+
+theorem vmax_spec (xs : Vec) (m : Rat) (h : vmax xs = some m) : m ∈ xs ∧ ∀ x ∈ xs, x ≤ m := by
+  cases xs with
+  | nil => simp [vmax] at h
+  | cons a t =>
+    simp only [vmax, Option.some.injEq] at h
+    subst h
+    obtain ⟨h1, h2, h3⟩ := foldl_max_spec t a
+    refine ⟨?_, ?_⟩
+    · rcases h1 with h1 | h1
+      · simp [h1]
+      · simp [h1]
+    · intro x hx
+      simp only [List.mem_cons] at hx
+      rcases hx with rfl | hx
+      · exact h2
+      · exact h3 x hx
 end Pyunicorn.Window
